@@ -388,6 +388,28 @@ func clientGoroutineBlockedInside(dump string) string {
 	return ""
 }
 
+// clientGoroutineWaitingForInput: a goroutine that relays client data is parked in a
+// network READ - it has taken everything the client sent so far.
+func clientGoroutineWaitingForInput(dump string) bool {
+	i := strings.LastIndex(dump, "SIGQUIT")
+	if i >= 0 {
+		dump = dump[i:]
+	}
+	for _, g := range strings.Split(dump, "\n\n") {
+		if !strings.Contains(g, "handleClientMessages") {
+			continue
+		}
+		hdr := g
+		if j := strings.IndexByte(g, '\n'); j >= 0 {
+			hdr = g[:j]
+		}
+		if strings.Contains(hdr, "IO wait") && strings.Contains(g, ").Read(") && !strings.Contains(g, ").Write(") {
+			return true
+		}
+	}
+	return false
+}
+
 // proxyAllBlocked applies the logical deadlock criterion to a goroutine dump of the
 // proxy: every goroutine with a frame in the repository's source is parked (channel
 // operation, select, mutex, or waiting for the network) - none is running or runnable.
@@ -1288,6 +1310,122 @@ func execC19StalledNeighbour(c *child.Ctx, k proxyCase, cj []byte) {
 	c.Count("calls_relayed_while_another_call_was_held_up_by_its_server", 1)
 }
 
+// execC19IdleServer: a caster that hangs up on connections that stay silent for 300 ms
+// (casters do), and two calls through the proxy with a pause of 0.9 s between them.
+// Whatever the proxy prepared during the pause, what the second client sends reaches
+// the server.
+func execC19IdleServer(c *child.Ctx, k proxyCase, cj []byte) {
+	p, err := startProxyX(c, k.ID, false)
+	if err != nil {
+		if p != nil {
+			p.stop()
+		}
+		c.Inconclusive("proxy could not be started: " + err.Error())
+		return
+	}
+	defer p.stop()
+	r := ref.NewRand(k.Seed)
+	var mu sync.Mutex
+	var received [][]byte
+	idleClosed := 0
+	go func() {
+		for {
+			conn, err := p.upstream.Accept()
+			if err != nil {
+				return
+			}
+			go func(conn net.Conn) {
+				defer conn.Close()
+				mu.Lock()
+				idx := len(received)
+				received = append(received, nil)
+				mu.Unlock()
+				buf := make([]byte, 4096)
+				first := true
+				for {
+					if first {
+						conn.SetReadDeadline(time.Now().Add(300 * time.Millisecond))
+					} else {
+						conn.SetReadDeadline(time.Now().Add(30 * time.Second))
+					}
+					n, err := conn.Read(buf)
+					if n > 0 {
+						first = false
+						mu.Lock()
+						received[idx] = append(received[idx], buf[:n]...)
+						mu.Unlock()
+						tick()
+					}
+					if err != nil {
+						if first {
+							mu.Lock()
+							idleClosed++
+							mu.Unlock()
+						}
+						return
+					}
+				}
+			}(conn)
+		}
+	}()
+	got := func(want []byte) bool {
+		mu.Lock()
+		defer mu.Unlock()
+		for _, b := range received {
+			if bytes.Equal(b, want) {
+				return true
+			}
+		}
+		return false
+	}
+	call := func(data []byte) (net.Conn, bool) {
+		conn, err := net.DialTimeout("tcp", fmt.Sprintf("127.0.0.1:%d", p.proxyPort), 5*time.Second)
+		if err != nil {
+			return nil, false
+		}
+		conn.Write(data)
+		for i := 0; i < 200; i++ { // up to 20 s
+			if got(data) {
+				return conn, true
+			}
+			sleepTicking(100 * time.Millisecond)
+		}
+		return conn, false
+	}
+	d1, d2 := proxyStream(r, r.Range(200, 2000)), proxyStream(r, r.Range(50, 2000))
+	c1, ok := call(d1)
+	if c1 != nil {
+		c1.Close()
+	}
+	if !ok {
+		c.Inconclusive("the first of two calls was not relayed within 20 s")
+		return
+	}
+	sleepTicking(time.Duration(k.StallMs) * time.Millisecond)
+	c2, ok := call(d2)
+	if c2 != nil {
+		defer c2.Close()
+	}
+	if !p.alive() {
+		c.Violate("proxy-died", "the proxy process ended between two calls: "+p.stderrTail(), cj)
+		return
+	}
+	if !ok {
+		p.cmd.Process.Signal(syscall.SIGQUIT)
+		<-p.exited
+		mu.Lock()
+		idle := idleClosed
+		mu.Unlock()
+		if dump := p.fullStderr(); proxyAllBlocked(dump) || clientGoroutineWaitingForInput(dump) {
+			c.Violate("client-to-server-differs", fmt.Sprintf("second call, %d ms after the first: the client sent %d bytes and in 20 s the server received them on none of its connections; the proxy's goroutine for the client's data has taken them all and is waiting for more, so they never will arrive (the server had hung up on %d connection(s) that stayed silent for 300 ms)", k.StallMs, len(d2), idle), cj)
+		} else {
+			c.Inconclusive("second call not relayed within 20 s without a logical explanation")
+		}
+		return
+	}
+	c.Count("second_calls_after_a_pause_with_a_server_that_drops_idle_connections", 1)
+}
+
 // execC19HalfClose: the caster answers and then shuts down its sending side only (it
 // has nothing more to say) while it keeps reading; everything the client sends
 // afterwards must still reach it.
@@ -1537,6 +1675,8 @@ func monC19(c *child.Ctx, replay json.RawMessage) {
 		c.Begin(replay)
 		if k.Kind == "stall" {
 			execC19Stall(c, k, replay)
+		} else if k.Kind == "idleserver" {
+			execC19IdleServer(c, k, replay)
 		} else if k.Kind == "neighbour" {
 			execC19StalledNeighbour(c, k, replay)
 		} else if k.Kind == "bulk" {
@@ -1587,6 +1727,12 @@ func monC19(c *child.Ctx, replay json.RawMessage) {
 		k := proxyCase{ID: c.Batch*10000 + 9500, Kind: "stall", Seed: r.Uint64() >> 1, StallMs: int(timedStalls(c)[sb].Milliseconds())*10 + 500, StallBytes: 6000000}
 		cj := c.BeginV(k)
 		execC19Stall(c, k, cj)
+		c.Eval(ref.Hash64(cj), true)
+	}
+	if (c.Batch == 3 || c.Batch == 4 || c.Thorough() && c.Batch%8 >= 3 && c.Batch%8 <= 4) && c.NViolations() == 0 {
+		k := proxyCase{ID: c.Batch*10000 + 9570, Kind: "idleserver", Seed: r.Uint64() >> 1, StallMs: []int{900, 2500}[c.Batch%2]}
+		cj := c.BeginV(k)
+		execC19IdleServer(c, k, cj)
 		c.Eval(ref.Hash64(cj), true)
 	}
 	if (c.Batch == 2 || c.Thorough() && c.Batch%8 == 2) && c.NViolations() == 0 {
